@@ -71,6 +71,14 @@ struct Scenario {
    virtual bool needs_tsan() const { return false; }
 };
 
+// A breadcrumb is a line written to the process's stderr before a step that may kill it (for
+// instance unbounded recursion in the printer); when the process dies, the last breadcrumb
+// becomes part of the violation class.
+void breadcrumb(const char* text);
+// Signatures of the known findings of the property being checked (so that generators can
+// avoid exactly those triggers); loaded by the driver before any run.
+const std::vector<std::string>& known_signatures();
+
 // Registry
 void register_scenario(Scenario*);
 Scenario* find_scenario(const std::string& id);
